@@ -143,6 +143,8 @@ def _f_scalar(spec, z, perms):
             m = len(p)
             val += math.fsum(math.dist(cities[p[i] % len(cities)], cities[p[(i + 1) % m] % len(cities)])
                              for i in range(m))
+    if spec.get("negate"):
+        val = -val
     return val
 
 
